@@ -680,6 +680,72 @@ theorem pathPairs_snd (betas logls : List Rat) : ∀ (m : Nat) (s : SweepSt) (ds
     simp only [pathPairs, List.map_cons]
     rw [pathPairs_snd betas logls tj _ ds (by simpa using h)]
 
+/-! ### A vector of uniforms in the event of a path makes the model's loop follow that path -/
+
+theorem pairEvent_exp_iff (l logu : Rat) {u : ℝ} (hu : 0 < u)
+    (hside : ∀ r : Rat, logu ≤ r ↔ Real.log u ≤ (r : ℝ)) (d : Bool) :
+    u ∈ pairEvent (AR.exp l) d ↔ (u ∈ Set.Ico (0:ℝ) 1 ∧ d = decide (logu ≤ l)) := by
+  unfold pairEvent
+  simp only [Set.mem_ofPred_eq, acceptedAR]
+  rw [← logspace_test hu, ← hside l]
+  constructor
+  · rintro ⟨h1, h⟩
+    refine ⟨h1, ?_⟩
+    cases d <;> simp_all
+  · rintro ⟨h1, h⟩
+    refine ⟨h1, ?_⟩
+    cases d <;> simp_all
+
+/-- The logs handed to the model: one per pair that draws (recorded ratio `exp l`). -/
+def drawnLogs : List (AR × Bool) → List Rat → List Rat
+  | (.exp _, _) :: l, x :: xs => x :: drawnLogs l xs
+  | (.one, _) :: l, _ :: xs => drawnLogs l xs
+  | (.zero, _) :: l, _ :: xs => drawnLogs l xs
+  | _, _ => []
+
+/-- One uniform `u` per pair lies in the pair's event; `x` is the rational handed to the model
+    in place of `log u`. -/
+def InEvents : List (AR × Bool) → List ℝ → List Rat → Prop
+  | (a, d) :: l, u :: us, x :: xs =>
+    0 < u ∧ (∀ r : Rat, x ≤ r ↔ Real.log u ≤ (r : ℝ)) ∧ u ∈ pairEvent a d ∧ InEvents l us xs
+  | [], [], [] => True
+  | _, _, _ => False
+
+theorem realises_of_inEvents (betas logls : List Rat) :
+    ∀ (m : Nat) (s : SweepSt) (ds : List Bool) (us : List ℝ) (xs : List Rat),
+    ds.length = m → InEvents (pathPairs betas logls m s ds) us xs →
+    Realises betas logls m s ds (drawnLogs (pathPairs betas logls m s ds) xs)
+  | 0, s, ds, us, xs, hd, _ => by
+    have : ds = [] := List.length_eq_zero_iff.mp hd
+    subst this
+    simp [Realises, pathPairs, drawnLogs]
+  | tj+1, s, [], _, _, hd, _ => by simp at hd
+  | tj+1, s, d :: ds, us, xs, hd, h => by
+    simp only [pathPairs] at h ⊢
+    cases us with
+    | nil => simp [InEvents] at h
+    | cons u us =>
+      cases xs with
+      | nil => simp [InEvents] at h
+      | cons x xs =>
+        obtain ⟨hu, hside, hev, hrest⟩ := h
+        have ih := realises_of_inEvents betas logls tj _ ds us xs (by simpa using hd) hrest
+        by_cases hl : pairLogAR betas logls tj s.loglk > 0
+        · have hone : pairAR betas logls tj s.loglk = .one := by simp [pairAR, hl]
+          rw [hone] at hev ⊢
+          have hd' : d = true := by
+            have := hev.2
+            simpa [acceptedAR] using this
+          simp only [Realises, hl, if_true, drawnLogs, hone]
+          rw [hone] at ih
+          exact ⟨hd', ih⟩
+        · have hexp : pairAR betas logls tj s.loglk = .exp (pairLogAR betas logls tj s.loglk) := by
+            simp [pairAR, hl]
+          rw [hexp] at hev ⊢
+          simp only [Realises, hl, if_false, drawnLogs, hexp]
+          rw [hexp] at ih
+          exact ⟨x, _, rfl, ((pairEvent_exp_iff _ x hu hside d).mp hev).2, ih⟩
+
 /-! ### The law of the loop is a probability law, linear in the test function -/
 
 theorem loopLaw_nonneg (betas logls : List Rat) {out : List Nat → ℝ} (ho : ∀ i, 0 ≤ out i) :
